@@ -299,6 +299,9 @@ pub fn run(args: &Args) -> Report {
     let devs_of = |rp: &serde_json::Value| -> core::Deviations { rp["deviations"].as_array().map(|a| a.iter().map(|p| (p[0].as_u64().unwrap() as u32, p[1].as_u64().unwrap() as u32)).collect()).unwrap_or_default() };
     if let Some(r) = &args.replay {
         let rp = &r["replay"];
+        if super::gossipnet::replay_fetch(&mut rep, args.seed, rp, &[]) {
+            return rep;
+        }
         let c = &rp["config"];
         let (res, div) = if c["kind"] == "limiter" {
             let l = &limiter_cfgs[c["index"].as_u64().unwrap_or(0) as usize];
@@ -392,7 +395,10 @@ pub fn run(args: &Args) -> Report {
     if rep.violations.is_empty() && (waited == 0 || starts == 0) {
         rep.machinery_errors.push(format!("vacuous: grants_after_waiting={waited} handler_starts={starts}"));
     }
+    // the rate a node's get_block server enforces is the one configured for that RPC kind (gossip/runner.rs)
+    let net_cov = super::gossipnet::report_rates(&mut rep, args.seed);
     rep.coverage = json!({
+        "configured_rate_on_a_real_network": net_cov,
         "states": execs, "transitions": points, "traces_validated_against_impl": execs,
         "evaluations": execs + nscripts, "distinct_nontrivial": distinct,
         "samples": [
